@@ -464,6 +464,12 @@ class _ConstantOnly(ValueError):
     pass
 
 
+def _as_array_operand(t):
+    """Unwraps tensors; every other object is passed through, so that NumPy still
+    sees a Python scalar as a scalar (`float32_array > 0.1` compares in float32)."""
+    return t.data if isinstance(t, Tensor) else t
+
+
 def _as_constant_array(t: Union["Tensor", np.ndarray]) -> np.ndarray:
     """Passes through all non-tensor objects and constant tensors. Raises on
     non-constant tensors."""
@@ -704,7 +710,7 @@ class Tensor:
 
         # non-differentiable ufuncs get called on numpy arrays stored by tensors
         if ufunc in _REGISTERED_BOOL_ONLY_UFUNC:
-            caster = asarray
+            caster = _as_array_operand
         elif ufunc in _REGISTERED_CONST_ONLY_UFUNC:
             # the presence of non-constant tensors will raise
             caster = _as_constant_array
@@ -2423,22 +2429,22 @@ class Tensor:
         return self._op(Tensor_Transpose_Property, self)
 
     def __eq__(self, other: ArrayLike) -> np.ndarray:
-        return np.ndarray.__eq__(self.data, asarray(other))
+        return np.ndarray.__eq__(self.data, _as_array_operand(other))
 
     def __ne__(self, other: ArrayLike) -> np.ndarray:
-        return np.ndarray.__ne__(self.data, asarray(other))
+        return np.ndarray.__ne__(self.data, _as_array_operand(other))
 
     def __lt__(self, other: ArrayLike) -> np.ndarray:
-        return np.ndarray.__lt__(self.data, asarray(other))
+        return np.ndarray.__lt__(self.data, _as_array_operand(other))
 
     def __le__(self, other: ArrayLike) -> np.ndarray:
-        return np.ndarray.__le__(self.data, asarray(other))
+        return np.ndarray.__le__(self.data, _as_array_operand(other))
 
     def __gt__(self, other: ArrayLike) -> np.ndarray:
-        return np.ndarray.__gt__(self.data, asarray(other))
+        return np.ndarray.__gt__(self.data, _as_array_operand(other))
 
     def __ge__(self, other: ArrayLike) -> np.ndarray:
-        return np.ndarray.__ge__(self.data, asarray(other))
+        return np.ndarray.__ge__(self.data, _as_array_operand(other))
 
     def __imatmul__(self, other):  # pragma: no cover
         raise TypeError(
